@@ -120,7 +120,7 @@ def gcc_reference(ctx, c07, tab, cases):
 
 
 def judge(ctx, c07, tab, case, status, obj, ptrs):
-    key = "auto " + case["ty"] + " " + " ".join(case["toks"])
+    key = "auto " + c07.case_key(case)
     ctx.count(key, nontrivial=len(case["toks"]) > 1)
     fired = sorted(case["afired"])
     decl = c07.render_decl(tab, case, "x")
